@@ -123,7 +123,7 @@ def exhaustive(ctx, tag, n, dcs, pols, fails, walks, walk_len, do_witnesses):
         wconsts = {"N": 3, "DCs": {"A", "B"}, "Policies": "<- PolSet"}
         for w in WITNESSES:
             wcfg = tlc.write_cfg(os.path.join(ctx.scratch, "%s_%s.cfg" % (w, tag)), constants=wconsts, invariants=[w], deadlock=False)
-            wres = tlc.check_model(wmc, wcfg, ctx.scratch, timeout=600)
+            wres = tlc.check_model(wmc, wcfg, ctx.scratch, timeout=600, workers=2, heap="1g")
             if wres.invariant != w:
                 raise tlc.MachineryError("vacuity witness %s was not reached" % w)
         ctx.note("vacuity_witnesses_reached", len(WITNESSES))
